@@ -1,12 +1,12 @@
 #!/bin/sh
 # usage: verify_seed.sh <id>  -- confirms a seeded change in its scratch worktree /tmp/wt/<id>:
 # demo passes without the patch, fails with it, and the stable baseline tests still pass with it.
-id=$1; wt=/tmp/wt/$id; sd=/verif/seeded/$id
+id=$1; wt=/tmp/wt/$id; sd=${VERIF_DIR:-/verif}/seeded/$id
 cd $wt || exit 2
 git checkout -q -- bfg9000 2>/dev/null
 demo=seed/demo.py; runner="/venv/bin/python"; [ -f seed/demo.sh ] && { demo=seed/demo.sh; runner=sh; }
 $runner $demo > /tmp/seed_demo_$id.clean.log 2>&1; clean=$?
 git apply $sd/patch.diff || { echo "patch failed"; exit 2; }
 $runner $demo > /tmp/seed_demo_$id.patched.log 2>&1; patched=$?
-python3 /verif/harness/baseline_cmp.py $wt > /tmp/seed_base_$id.log 2>&1; base=$?
+python3 ${VERIF_DIR:-/verif}/harness/baseline_cmp.py $wt > /tmp/seed_base_$id.log 2>&1; base=$?
 echo "seed $id: demo clean exit=$clean patched exit=$patched baseline_missing_exit=$base"; tail -1 /tmp/seed_base_$id.log | head -1; head -1 /tmp/seed_base_$id.log
